@@ -529,7 +529,17 @@ func (in *Interp) exec(fr *Frame, instr ssa.Instruction) {
 		fr.locals[i] = in.typeAssert(fr, i)
 	case *ssa.MakeSlice:
 		n := in.needInt(in.get(fr, i.Len).(*Term), "make len")
-		c := in.needInt(in.get(fr, i.Cap).(*Term), "make cap")
+		var c int
+		if ct := in.get(fr, i.Cap).(*Term); !ct.IsConst && in.get(fr, i.Len).(*Term).IsConst {
+			// symbolic capacity with a concrete length: the capacity only decides whether later appends
+			// reallocate, so both regimes are explored (no spare room / plenty of spare room)
+			if in.branch(in.s.BVCmp("bvslt", ct, in.get(fr, i.Len).(*Term))) {
+				in.progPanic("makeslice: cap out of range")
+			}
+			c = n + 64*in.ex.DecideFree(in, 2, "make-cap")
+		} else {
+			c = in.needInt(ct, "make cap")
+		}
 		if n < 0 || c < n {
 			in.progPanic("makeslice: len out of range")
 		}
